@@ -571,6 +571,8 @@ class Lib:
             return '((%s)shim_opaque_ptr())' % self.tr.ctype_t(t)
         if name == 'find_if' and len(args) == 3:
             return self.find_if(P, n, args)
+        if name == 'rand' and not args:
+            return 'shim_rand()'      # <cstdlib> rand(): any value in [0, RAND_MAX]
         if name in ('max', 'min') and not args:
             # std::numeric_limits<T>::max() / min() of the integer types
             lim = {'int': ('2147483647', '(-2147483647 - 1)'), 'long': ('9223372036854775807L', '(-9223372036854775807L - 1)'),
